@@ -5,6 +5,7 @@ import (
 	"fmt"
 	"github.com/gr33nbl00d/caddy-revocation-validator/config"
 	"github.com/gr33nbl00d/caddy-revocation-validator/core"
+	"github.com/gr33nbl00d/caddy-revocation-validator/core/verifhook"
 	"github.com/gr33nbl00d/caddy-revocation-validator/crl/crlrepository"
 	"github.com/gr33nbl00d/caddy-revocation-validator/crl/crlstore"
 	"go.uber.org/zap"
@@ -35,6 +36,7 @@ func (c *CRLRevocationChecker) IsRevoked(clientCertificate *x509.Certificate, ve
 			c.logger.Warn("Failed to add CRL from CDP", zap.Strings("cdp", clientCertificate.CRLDistributionPoints), zap.Error(err))
 		} else {
 			if added && c.crlConfig.CDPConfig.CRLFetchModeParsed == config.CRLFetchModeBackground {
+				verifhook.Hit("crl.bg.spawn", c)
 				go c.updateCRLs(true)
 			}
 		}
@@ -145,8 +147,10 @@ func (c *CRLRevocationChecker) initCRLUpdateTicker() {
 		for {
 			select {
 			case <-c.crlUpdateStop:
+				verifhook.Hit("crl.ticker.stopped", c)
 				return
 			case <-c.crlUpdateTicker.C:
+				verifhook.Hit("crl.tick", c)
 				go c.updateCRLs(false)
 			}
 		}
@@ -154,6 +158,8 @@ func (c *CRLRevocationChecker) initCRLUpdateTicker() {
 
 }
 func (c *CRLRevocationChecker) updateCRLs(forceUpdate bool) {
+	verifhook.Hit("crl.update.enter", c, forceUpdate)
+	defer verifhook.Hit("crl.update.exit", c, forceUpdate)
 	crlUpdateMutex.Lock()
 	defer crlUpdateMutex.Unlock()
 
@@ -166,6 +172,7 @@ func (c *CRLRevocationChecker) updateCRLs(forceUpdate bool) {
 	// constantly updating. This allows crl updates to take up to half the interval's
 	// duration before we decide to skip the next one.)
 	if !forceUpdate && c.updateWasRecentlyFinished() {
+		verifhook.Hit("crl.update.skip", c)
 		return
 	}
 	defer func() {
@@ -173,6 +180,7 @@ func (c *CRLRevocationChecker) updateCRLs(forceUpdate bool) {
 		lastCrlUpdateFinishTime = time.Now()
 	}()
 
+	verifhook.Hit("crl.update.run", c, forceUpdate)
 	c.crlRepository.UpdateCRLs()
 }
 
